@@ -48,5 +48,7 @@ func runC07(r *oblig.Report) {
 	e5path.ForwardedErrors(c.P, r, "R9.4")
 	e5path.Attribution(c.P, r, "C07.5")
 	e5path.FreshMembership(c.P, r, "C07.8")
+	r.Rule("C07.9", "path-enumeration", "an extension's relations are adopted wholesale only after the base type itself was found to have none", 1)
+	e5path.LiveAdoption(c.P, r, "C07.9")
 	e5path.ModuleLookupShape(c.P, r, "C07.7")
 }
